@@ -31,8 +31,29 @@ def gen_inputs(ctx):
         kind = rng.random()
         if kind < 0.5:
             tuples.append([rng.choice(U3) for _ in range(n)])
-        elif kind < 0.72:
+        elif kind < 0.64:
             tuples.append([random_sig(rng, 'abcd', 4) for _ in range(n)])
+        elif kind < 0.72:
+            # inputs that agree on a prefix of their positional parameters and then name the next
+            # slots differently (several parameters renamed in one step), followed by inputs that
+            # lack those slots and have stars
+            names = [1, 2, 3, 4, 14, 15]
+            rng.shuffle(names)
+            k = rng.randint(0, 2)
+            w = rng.randint(1, 2)
+            prefix = [(x, 'PK', None, None, ('E',)) for x in names[:k]]
+            dflt = rng.choice([None, 1])
+            t1 = prefix + [(x, 'PK', dflt, None, ('E',)) for x in names[k:k + w]]
+            t2 = prefix + [(x, 'PK', dflt, None, ('E',)) for x in names[k + w:k + 2 * w]]
+            rest = []
+            for _ in range(n - 2):
+                r = list(prefix[:rng.randint(0, k)])
+                if rng.random() < 0.4:
+                    r.append((9, 'VP', None, None, ('E',)))
+                if rng.random() < 0.8:
+                    r.append((10, 'VK', None, None, ('E',)))
+                rest.append(r)
+            tuples.append([t1, t2] + rest if n > 2 else [t1, t2])
         elif kind < 0.8:
             # names of more than one letter, some spelled with the letters of the others
             tuples.append([random_sig(rng, ['a', 'ab', 'ba', 'b', 'self'], 4) for _ in range(n)])
@@ -117,6 +138,31 @@ def run(ctx, rep):
     rep.coverage['arity_histogram'] = {str(k): sum(1 for t in tuples if len(t) == k) for k in (2, 3, 4)}
     for c, key, what in res:
         rep.violation(key, what, dict(c.data(), kind='decide'))
+    # a broken correspondence without a failing input so far: search the neighbourhood of the
+    # disagreeing tuples (every order, every sub-tuple, a bare star signature appended) for an
+    # input on which the implementation's merge is unsound
+    broken = [c for c, m, i in triples if proj_shape(m) != proj_shape(i)]
+    if broken and not res:
+        import itertools
+        bare = mk_desc([(9, 'VP', None, None, ('E',)), (10, 'VK', None, None, ('E',))], 150)
+        near, seen = [], set()
+        for c in broken[:40]:
+            ds = list(c.ds)
+            cands = [list(pm) for pm in itertools.permutations(ds)] if len(ds) <= 4 else [ds]
+            for r in range(2, len(ds)):
+                cands += [list(sub) for sub in itertools.combinations(ds, r)]
+            cands += [ds + [bare], [bare] + ds]
+            for cand in cands:
+                nc = Merge(cand)
+                if nc.request() not in seen:
+                    seen.add(nc.request())
+                    near.append(nc)
+        near = near[:4000]
+        nres, _ = decide(run_cases(near))
+        rep.coverage['failing_input_search_cases'] = len(near)
+        for c, key, what in nres[:5]:
+            rep.violation(key, what + ' (found by searching around a disagreement between model and implementation)',
+                          dict(c.data(), kind='decide'))
     # soundness only (no comparison with the model, whose defaults are plain values): some defaults
     # are an object that compares equal to everything, like unittest.mock.ANY
     wrng = ctx.rng('wildcard')
